@@ -23,6 +23,9 @@ from . import c01
 NEEDS_READER = True
 
 
+from . import shared
+
+
 def check(repo: Repo, R) -> None:
     inverse_tables(repo, R)
     field_coverage(repo, R)
@@ -125,10 +128,14 @@ def inverse_tables(repo: Repo, R):
     back = bool(pat.find("mod._importpath + [mod.name]", fqp.node))
     # "imported" means the import path was set, even to the empty path (a module defined at top level / in a notebook)
     imp_test = None
-    for n in au.walk_no_nested(fqp.node):
-        if isinstance(n, ast.If) and pat.find("mod._importpath + [mod.name]", ast.Module(n.body, [])):
-            imp_test = ast.unparse(n.test)
-    exact = imp_test in ("getattr(mod, '_importpath', None) is not None", "mod._importpath is not None")
+    for r in shared.returns_of(fqp.node):
+        if shared.prov_text(fqp.node, r.value) == "mod._importpath + [mod.name]":
+            pcs = shared.path_conditions(fqp.node, r)
+            imp_test = " and ".join(("" if pol else "not ") + f"({ast.unparse(t)})" for t, pol in pcs)
+            exact = shared.conds_imply(pcs, [(shared.parse_cond("getattr(mod, '_importpath', None) is None"), False)]) is True and shared.conds_imply([(shared.parse_cond("getattr(mod, '_importpath', None) is None"), False)], pcs) is True
+            exact = exact or (shared.conds_imply(pcs, [(shared.parse_cond("mod._importpath is None"), False)]) is True and shared.conds_imply([(shared.parse_cond("mod._importpath is None"), False)], pcs) is True)
+    if imp_test is None:
+        exact = False
     R.check(exact, rule, f"{F_QUALNAME}::qualpath::imported-test", fqp.site,
             f"a module counts as imported when its import path `is not None` (test: `{imp_test}`); an empty path is a valid import path",
             why="a module imported with an empty path (defined via exec / a notebook / python -c) is re-exported under the importer's own Python module path: names change in the round trip")
@@ -187,7 +194,7 @@ def variant_coverage(repo: Repo, R):
     # a Concat comes back as a Concat, whatever its number of parts
     fic = repo.func(F_IMPORT, "import_concat")
     rets = [n for n in au.walk_no_nested(fic.node) if isinstance(n, ast.Return)]
-    ok = len(rets) == 1 and ast.unparse(rets[0].value) == "Concat(*parts)"
+    ok = len(rets) == 1 and pat.match("Concat(*$P)", rets[0].value) is not None
     R.check(ok, rule, key_of(fic, "always-concat"), fic.site, f"import_concat has one exit, returning Concat(*parts): {ok} (returns: {[ast.unparse(r.value) for r in rets]})",
             why="a one-part concatenation is imported as a bare signal: re-exporting emits `sig` where the package had `concat`")
     fct = repo.func(F_IMPORT, "import_connection_target")
@@ -233,7 +240,9 @@ def order(repo: Repo, R):
     ]
     for fi, it, what in checks:
         loops = [n for n in au.walk_no_nested(fi.node) if isinstance(n, ast.For) and ast.unparse(n.iter) == it]
-        ok = len(loops) == 1 and not any(isinstance(x, (ast.Break, ast.Continue)) for x in ast.walk(loops[0]))
+        comps = [g for n in au.walk_no_nested(fi.node) if isinstance(n, (ast.ListComp, ast.DictComp, ast.GeneratorExp)) for g in n.generators if ast.unparse(g.iter) == it]
+        # a forward loop without early exits, or a comprehension without a filter (canonical form of an accumulation loop)
+        ok = (len(loops) == 1 and not comps and not any(isinstance(x, (ast.Break, ast.Continue)) for x in ast.walk(loops[0]))) or (len(comps) == 1 and not loops and not comps[0].ifs)
         R.check(ok, rule, key_of(fi, it), fi.site, f"{what}: plain forward loop over `{it}`: {ok}", why="the re-exported package lists elements in another order, or drops some")
     # ports: order of the exported ports list must survive: ExternalModule port_list = list(signals.values()) keeps *signal* order
     ext_before = False
